@@ -53,6 +53,35 @@ class ExtractionError(Exception):
     pass
 
 
+_src_hash = {}
+
+
+def source_hash(source):
+    """sha256 over the translation unit's own inputs: the source file and every header under /repo that
+    clang says it includes (clang -MM).  A change anywhere else in /repo cannot change the dump."""
+    if source in _src_hash:
+        return _src_hash[source]
+    src = os.path.join(REPO, source)
+    if not os.path.exists(src):
+        raise ExtractionError('source file missing: %s' % source)
+    p = subprocess.run([CLANG] + [f for f in FLAGS if f != '-fsyntax-only'] + ['-MM', '-MG', src],
+                       stdout=subprocess.PIPE, stderr=subprocess.PIPE)
+    if p.returncode != 0:
+        raise ExtractionError('clang -MM failed on %s: %s' % (source, p.stderr.decode()[-1500:]))
+    deps = p.stdout.decode().replace('\\\n', ' ').split(':', 1)[1].split()
+    h = hashlib.sha256()
+    for d in sorted(set(deps)):
+        if d.startswith(REPO):
+            h.update(d.encode())
+            try:
+                with open(d, 'rb') as fh:
+                    h.update(fh.read())
+            except OSError:
+                h.update(b'<missing>')
+    _src_hash[source] = h.hexdigest()
+    return _src_hash[source]
+
+
 def _decode_many(s):
     dec = json.JSONDecoder()
     i = 0
@@ -101,7 +130,7 @@ def dump(source, filt):
     src = os.path.join(REPO, source)
     if not os.path.exists(src):
         raise ExtractionError('source file missing: %s' % source)
-    key = hashlib.sha256(('%s|%s|%s' % (source, filt, tree_hash())).encode()).hexdigest()[:24]
+    key = hashlib.sha256(('%s|%s|%s' % (source, filt, source_hash(source))).encode()).hexdigest()[:24]
     os.makedirs(os.path.join(BUILD, 'ast'), exist_ok=True)
     path = os.path.join(BUILD, 'ast', key + '.json')
     if os.path.exists(path):
